@@ -538,6 +538,7 @@ def _queue_witness(u, sentinel, member_text, x, tgt, is_sent, conds, cconds, bin
             return True
         return any(m.get("kind") == "MemberExpr" and m.get("referencedMemberDecl") in sentinel for m in A.walk(c)) or \
             any(y.get("kind") == "DeclRefExpr" and (y["referencedDecl"]["id"] in binds or (y["referencedDecl"].get("kind") == "VarDecl" and "bool" in A.qtype(y))) for y in A.walk(c))
+    dropped = [c for c, _ in conds + cconds if not relevant(c)]
     conds = [(c, pol) for c, pol in conds if relevant(c)]
     cconds = [(c, pol) for c, pol in cconds if relevant(c)]
     allc = conds + cconds
@@ -562,6 +563,13 @@ def _queue_witness(u, sentinel, member_text, x, tgt, is_sent, conds, cconds, bin
     if carried and is_sent:
         return {"reason": "the renumbering of other slots is conditioned on `%s`, which the same loop over the slots assigns: only slots visited after that point are renumbered" % carried[0]}
     if not exprs:
+        # a guard on a local that was computed from the slots (the result of a search, a pointer to the slot found) may
+        # well stand for a queue position: it is not followed, so there is no verdict rather than a report
+        for c in dropped:
+            for y in A.walk(c):
+                d_ = u.by_id.get((y.get("referencedDecl") or {}).get("id")) if y.get("kind") == "DeclRefExpr" else None
+                if d_ is not None and d_.get("kind") == "VarDecl" and A.kids(d_) and any(z.get("kind") in ("CallExpr", "CXXMemberCallExpr", "MemberExpr", "LambdaExpr") for z in A.walk(A.kids(d_)[-1])):
+                    raise AnalysisBroken("R19.5: %s: the decrement is guarded through the local `%s`, whose relation to the queue positions is not followed" % (q, d_.get("name")))
         return {"reason": "no enclosing condition mentions a queue position"}
     for vals in itertools.product((-1, 1, 2, 3), repeat=len(exprs)):
         asg = dict(zip(exprs, vals))
